@@ -24,12 +24,15 @@ def mapRangeSites : List (String × String × String) := [
 /-- calls made by TemplateGenFromString, in source order -/
 def calls_TemplateGenFromString : List String := ["parser.ParseAndBuild(input)", "fmt.Errorf(\"parse error: %s\", err)", "NewTemplateBuilder(w)", "b.buildConstPart()", "b.buildUionAndCode()", "b.buildAnalyTable()", "b.buildStateFunc()", "b.buildReduceFunc()", "b.buildTranslate()", "os.Create(file)", "fmt.Errorf(\"create file error: %s\", err)", "b.WriteFile(f)"]
 
-def ops_TemplateGenFromString : List Op := [.fallible, .other, .fallible, .fallible, .fallible, .fallible, .fallible, .fallible, .fallible, .create, .other, .write true]
+def ops_TemplateGenFromString : List Op := [.fallible, .other, .fallible, .fallible, .fallible, .fallible, .fallible, .fallible, .fallible, .create, .other, .other, .other, .other, .other, .write true, .other]
 
 /-- calls made by TsGenFromString, in source order -/
 def calls_TsGenFromString : List String := ["parser.ParseAndBuild(input)", "fmt.Errorf(\"parse error: %s\", err)", "NewTsBuilder(w)", "b.buildConstPart()", "b.buildUionAndCode()", "b.buildAnalyTable()", "b.buildStateFunc()", "b.buildReduceFunc()", "b.buildTranslate()", "os.Create(file)", "fmt.Errorf(\"create file error: %s\", err)", "f.WriteString(b.CodeHeader)", "f.WriteString(b.ConstPart)", "f.WriteString(b.UnionPart)", "f.WriteString(b.AnalyTable)", "f.WriteString(b.StateFunc)", "f.WriteString(b.ReduceFunc)", "f.WriteString(b.Translate)", "f.WriteString(b.CodeLast)", "f.Close()"]
 
 def ops_TsGenFromString : List Op := [.fallible, .other, .fallible, .fallible, .fallible, .fallible, .fallible, .fallible, .fallible, .create, .other, .write false, .write false, .write false, .write false, .write false, .write false, .write false, .write true, .other]
+
+/-- calls made by WriteFile, in source order -/
+def calls_WriteFile : List String := ["template.New(\"gotemplate\").Parse(chooseTemplate)", "template.New(\"gotemplate\")", "panic(err)", "f.Close()", "templ.Execute(f, b)", "panic(err)"]
 
 def templ_goCode_same_as_go_string : Bool := true
 def templ_goCode_ends_with_epilogue : Bool := true
